@@ -482,10 +482,12 @@ type c06scen struct {
 	Mode    string `json:"schedule"`
 	Streams int    `json:"streams"`
 	Alg     string `json:"hash"`
+	Tail    int    `json:"verify_tail"` // Options.ResumeVerifyTail of the sender (the CLI default is 1)
+	Verify  string `json:"verify_mode"` // Options.ResumeVerify: "" (= last), "last", "all", "none"
 }
 
 func (s c06scen) String() string {
-	return fmt.Sprintf("seed=%d cs=%d size=%d marks=%s metadata=%s data=%s schedule=%s streams=%d hash=%s", s.Seed, s.CS, s.Size, s.Marks, s.Meta, s.Data, s.Mode, s.Streams, s.Alg)
+	return fmt.Sprintf("seed=%d cs=%d size=%d marks=%s metadata=%s data=%s schedule=%s streams=%d hash=%s tail=%d verify=%q", s.Seed, s.CS, s.Size, s.Marks, s.Meta, s.Data, s.Mode, s.Streams, s.Alg, s.Tail, s.Verify)
 }
 
 var c06fixedTime = time.Unix(1700000000, 0)
@@ -787,6 +789,8 @@ func c06runScenario(base string, sc c06scen) c06result {
 	cfg := xferCfg{chunkSize: cs, streams: sc.Streams, resume: true, timeout: 8 * time.Second,
 		sendOpts: func(o *transfer.Options) {
 			o.HashAlg = sc.Alg
+			o.ResumeVerifyTail = uint32(sc.Tail)
+			o.ResumeVerify = sc.Verify
 			o.ResumeStatsFn = func(rel string, sk, tot, verified uint32, size int64, c uint32) {
 				h.mu.Lock()
 				h.planSeen = true
@@ -892,11 +896,18 @@ func c06runScenario(base string, sc c06scen) c06result {
 	}
 	h.mu.Unlock()
 	if out.resent >= 0 {
+		// "re-sent" means a frame for that chunk was actually written after the verdict -
+		// a mismatch verdict that is never followed by the frame is not a re-send
+		found := false
 		for i, c := range all {
 			if int64(c) == out.resent {
 				all = append(all[:i], all[i+1:]...)
+				found = true
 				break
 			}
+		}
+		if !found {
+			out.resent = -1
 		}
 	}
 	sort.Slice(all, func(i, j int) bool { return all[i] < all[j] })
@@ -937,7 +948,8 @@ func (c *c06ctx) scenario(base string, sc c06scen) {
 	}
 	// outside the property: a chunk other than the last recorded one was damaged
 	// under metadata that is genuine (nothing can notice), or hashing is switched off
-	outside := o.trusted && (sc.Data == "middle-damaged" || ((sc.Data == "last-damaged" || sc.Data == "last-torn") && sc.Alg == "none"))
+	noVerify := sc.Alg == "none" || sc.Verify == "none"
+	outside := o.trusted && (sc.Data == "middle-damaged" || ((sc.Data == "last-damaged" || sc.Data == "last-torn") && noVerify))
 	if !o.res.sendDone || !o.res.recvDone {
 		c.rep.Violate("hang:"+sc.Mode, fmt.Sprintf("resumed transfer did not finish (%s): sender=%v receiver=%v", sc, o.res.sendErr, o.res.recvErr), replay)
 		return
@@ -975,7 +987,7 @@ func (c *c06ctx) scenario(base string, sc c06scen) {
 		c.rep.Count("outside-property:" + sc.Data + "/" + sc.Alg)
 	}
 	// the damaged last chunk must be detected (re-sent) whenever the metadata was genuine
-	if o.trusted && (sc.Data == "last-damaged" || sc.Data == "last-torn") && sc.Alg != "none" && o.res.sendErr == nil && o.res.recvErr == nil && !o.planLate && o.resent != int64(o.highest) {
+	if o.trusted && (sc.Data == "last-damaged" || sc.Data == "last-torn") && !noVerify && o.res.sendErr == nil && o.res.recvErr == nil && !o.planLate && o.resent != int64(o.highest) {
 		c.rep.Violate("damage-not-detected:"+sc.Mode, fmt.Sprintf("last recorded chunk %d is damaged on disk but was not sent again (%s)", o.highest, sc), replay)
 	}
 	// correspondence with Model/Resume.v
@@ -992,8 +1004,8 @@ func (c *c06ctx) scenario(base string, sc c06scen) {
 		if o.resent >= 0 {
 			rs = fmt.Sprintf("(Some %d)", o.resent)
 		}
-		c.cf.Add(fmt.Sprintf("C06.X %d %s %d %d %d %s %s %s %s 0 false %s %s %s %d", id, hx.Str(o.id), sc.Size, sc.CS, alg,
-			c06opt(o.fileB, o.hasFile), c06opt(o.primB, o.hasPrim), c06opt(o.fallB, o.hasFall), hx.Bytes(o.src),
+		c.cf.Add(fmt.Sprintf("C06.X %d %s %d %d %d %s %s %s %s %d %s %s %s %s %d", id, hx.Str(o.id), sc.Size, sc.CS, alg,
+			c06opt(o.fileB, o.hasFile), c06opt(o.primB, o.hasPrim), c06opt(o.fallB, o.hasFall), hx.Bytes(o.src), sc.Tail, hx.B(sc.Verify == "none"),
 			c06u32list(o.sent), rs, hx.Bytes(o.final), o.skipped))
 		c.rep.TracesValidated++
 	}
@@ -1035,7 +1047,10 @@ func (c *c06ctx) partB(r *hx.Rand, base string) {
 	seed := func() uint64 { return r.U64() % 1000000 }
 	mk := func(cs, total int, marks, meta, data, mode string, streams int, alg string) c06scen {
 		size := (total-1)*cs + 1 + r.Intn(cs)
-		return c06scen{Seed: seed(), CS: cs, Size: size, Marks: marks, Meta: meta, Data: data, Mode: mode, Streams: streams, Alg: alg}
+		// the sender's verification settings: mostly the CLI defaults (tail 1, mode last)
+		tail := r.Pick(0, 1, 1, 1, 2, 5)
+		verify := []string{"", "", "last", "all", "none"}[r.Intn(5)]
+		return c06scen{Seed: seed(), CS: cs, Size: size, Marks: marks, Meta: meta, Data: data, Mode: mode, Streams: streams, Alg: alg, Tail: tail, Verify: verify}
 	}
 	// ---- corpus: old failures first (they must stay repaired) ----
 	all := func(n int) string { return strings.Repeat("1", n) }
